@@ -40,7 +40,9 @@ def create_build_finer_grid_fun(epsilon: float, maturity: float):
                     axis=-1,
                 )
                 positions = np.nonzero(aug_dts > threshold)[0]
-            aug_jump_times = np.cumsum(aug_dts)
+            # the running sum of the steps may end an ulp beyond the last original time (the maturity): no time lies
+            # beyond it, otherwise the maturity appended by the caller would come before the last point
+            aug_jump_times = np.minimum(np.cumsum(aug_dts), jump_times[-1])
 
             return aug_jump_times, aug_fine_js, aug_coarse_js
 
